@@ -237,16 +237,17 @@ def tlc_validate(scratch, module, cfg, lines, chunk=None, procs=None, heap_mb=15
     return bad, dict(generated=gen, distinct=dist, procs=len(jobs))
 
 
-def apalache_check(scratch, module, init, inv, length, cinit, expect_violation=False, timeout=600):
+def apalache_check(scratch, module, init, inv, length, cinit, expect_violation=False, timeout=600, next_=None):
     """Symbolic check with Apalache (bounded by `length`): used for inductive invariants
     (--init=<arbitrary state satisfying the invariant> --length=1). Returns seconds taken.
     Infra if Apalache cannot be run or the outcome is not the expected one... the latter is a broken
     model, not a verdict about the code."""
-    d = scratch.specdir("apa-%s-%s-%s-%d" % (module, inv, cinit, length))
+    d = scratch.specdir("apa-%s-%s-%s-%s-%d" % (module, inv, cinit, next_, length))
     t0 = time.time()
     try:
-        p = subprocess.run(["apalache-mc", "check", "--init=" + init, "--inv=" + inv, "--length=%d" % length, "--cinit=" + cinit,
-                            "--out-dir=" + os.path.join(d, "_apalache-out"), module + ".tla"],
+        p = subprocess.run(["apalache-mc", "check", "--init=" + init, "--inv=" + inv, "--length=%d" % length]
+                           + (["--cinit=" + cinit] if cinit else []) + (["--next=" + next_] if next_ else [])
+                           + ["--out-dir=" + os.path.join(d, "_apalache-out"), module + ".tla"],
                            cwd=d, stdout=subprocess.PIPE, stderr=subprocess.STDOUT, text=True, timeout=timeout)
     except (OSError, subprocess.TimeoutExpired) as e:
         raise Infra("apalache-mc could not be run to completion: %s" % e)
